@@ -11,7 +11,7 @@ use crate::verif::drivers::common::{emit_inconclusive, emit_violation, Params, T
 use crate::verif::drivers::hist::{self, HOp, HistCfg, HistRun};
 use crate::verif::gen;
 use crate::verif::util::{env_str, fnv_str, mix, Rng, J};
-use crate::verif::vsys::{Clock, Op, Who, RULER_DIR};
+use crate::verif::vsys::{Clock, Op, Who, ruler_dir};
 use crate::verif::world::{self, Obs, SchedChoice, Violation};
 
 fn cfg_for(thorough : bool, clock : Clock) -> HistCfg
@@ -100,8 +100,8 @@ pub fn drive()
                 {
                     a.last_build_goal = Some(goal.clone());
                     builds += 1;
-                    let prefix = format!("{}/cache/", RULER_DIR);
-                    if oa.log.iter().any(|e| e.op == Op::Rename && e.ok && e.who == Who::Ruler && e.p1.starts_with(&prefix) && !e.p2.starts_with(RULER_DIR)) { restored_any = true; }
+                    let prefix = format!("{}/cache/", ruler_dir());
+                    if oa.log.iter().any(|e| e.op == Op::Rename && e.ok && e.who == Who::Ruler && e.p1.starts_with(&prefix) && !e.p2.starts_with(ruler_dir())) { restored_any = true; }
                     tally.counts.inc("builds_compared");
 
                     // direct observation: the hash handed to a dependent is the file's true hash
